@@ -25,6 +25,39 @@ Theorem c17_lookup_is_containing_fragment : forall (A : Type) (l : list (A * (N 
 Proof. intros A l k W. exact (lookup_den 0 l k W). Qed.
 Print Assumptions c17_lookup_is_containing_fragment.
 
+(** End to end, as displayed: the attributes the iterator yields for the first n characters of the
+    merged line are, character by character, the highlight attribute inside a highlight range and
+    the old attribute elsewhere. *)
+Theorem c17_displayed : forall (A : Type) (old new : list (A * (N * N))) n, WF old -> WF new ->
+  exists r, merge_fragments old new = Some r /\
+    iter_attrs r n = map (fun k => over (lookup new k) (lookup old k)) (map N.of_nat (seq 0 n)).
+Proof. intros A. exact merge_displayed. Qed.
+Print Assumptions c17_displayed.
+
+(** AnsiString::override_attrs (what DefaultSkimItem::display calls): on a string without colours
+    the highlights are taken as they are, with no highlights the string is untouched, otherwise the
+    merge; in every case the pointwise law holds and the ranges stay ordered and non-overlapping. *)
+Theorem c17_override_attrs : forall (A : Type) (cur : option (list (A * (N * N)))) attrs, WFo cur -> WF attrs ->
+  exists r, override_attrs cur attrs = Some r /\ WFo r /\
+    forall k, lookupo r k = over (lookup attrs k) (lookupo cur k).
+Proof. intros A. exact override_spec. Qed.
+Print Assumptions c17_override_attrs.
+
+(** Two successive layers (the result of one merge is a legal input of the next): the later layer
+    wins, then the earlier one, then the colours of the text; nothing else changes. *)
+Theorem c17_two_layers : forall (A : Type) (old h1 h2 : list (A * (N * N))), WF old -> WF h1 -> WF h2 ->
+  exists r1 r2, merge_fragments old h1 = Some r1 /\ merge_fragments r1 h2 = Some r2 /\ WF r2 /\
+    forall k, lookup r2 k = over (lookup h2 k) (over (lookup h1 k) (lookup old k)).
+Proof. intros A. exact merge_two_layers. Qed.
+Print Assumptions c17_two_layers.
+
+(** Laying the same highlight ranges a second time changes no character. *)
+Theorem c17_idempotent : forall (A : Type) (old new : list (A * (N * N))), WF old -> WF new ->
+  exists r1 r2, merge_fragments old new = Some r1 /\ merge_fragments r1 new = Some r2 /\
+    forall k, lookup r2 k = lookup r1 k.
+Proof. intros A. exact merge_idempotent. Qed.
+Print Assumptions c17_idempotent.
+
 (** Non-vacuity: nested, adjacent, empty and trailing ranges. *)
 Example c17_example :
   let old := [(1, (0, 4)); (2, (4, 4)); (3, (6, 9))]%N in
